@@ -245,13 +245,14 @@ impl<'a> CompilerState<'a> {
         let mut line_number: usize = 0;
         let mut char_number = 0;
         for c in self.preprocessed_utf8.chars() {
+            // An unknown position (0) designates the beginning of the text
+            if char_number == loc {
+                break;
+            }
             if c == '\n' {
                 line_number += 1;
             }
             char_number += 1;
-            if char_number == loc {
-                break;
-            }
         }
         let included_in = self.mapped_lines[line_number]
             .2
@@ -269,13 +270,14 @@ impl<'a> CompilerState<'a> {
         let mut line_number: usize = 0;
         let mut char_number = 0;
         for c in self.preprocessed_utf8.chars() {
+            // An unknown position (0) designates the beginning of the text
+            if char_number == loc {
+                break;
+            }
             if c == '\n' {
                 line_number += 1;
             }
             char_number += 1;
-            if char_number == loc {
-                break;
-            }
         }
         let included_in = self.mapped_lines[line_number]
             .2
@@ -293,13 +295,14 @@ impl<'a> CompilerState<'a> {
         let mut line_number: usize = 0;
         let mut char_number = 0;
         for c in self.preprocessed_utf8.chars() {
+            // An unknown position (0) designates the beginning of the text
+            if char_number == loc {
+                break;
+            }
             if c == '\n' {
                 line_number += 1;
             }
             char_number += 1;
-            if char_number == loc {
-                break;
-            }
         }
         let included_in = self.mapped_lines[line_number]
             .2
